@@ -412,7 +412,7 @@ pub fn run(o: &Opts) -> Report {
         programs.push(cur(vec![Call::CreateDir("/a".into())], vec![vec![Call::RemoveDir("/a".into())], vec![Call::CreateDir("/a/b".into())], vec![Call::Exists("/a/b".into())]]));
         programs.push(cur(vec![Call::CreateDir("/a".into()), Call::CreateDir("/a/b".into())], vec![vec![Call::RemoveDir("/a/b".into()), Call::RemoveDir("/a".into())], vec![Call::CreateDir("/a/b/d".into())]]));
         programs.push(cur(vec![], vec![vec![Call::CreateDir("/a".into()), Call::CreateDir("/a/b".into())], vec![Call::CreateDir("/a".into()), Call::ReadDir("/a".into())]]));
-        let n_random = if o.thorough() { 400 } else { 40 };
+        let n_random = if o.thorough() { 120 } else { 40 };
         let ini = inits();
         for _ in 0..n_random {
             let nt = 2 + rng.below(2);
@@ -435,7 +435,7 @@ pub fn run(o: &Opts) -> Report {
             Program { init: vec![Call::WriteSession("/c".into(), b"old".to_vec())], threads: vec![vec![Call::WriteSession("/c".into(), b"new".to_vec())], vec![Call::Read("/c".into())]], backend: "mem" },
             Program { init: vec![Call::WriteSession("/c".into(), b"".to_vec())], threads: vec![vec![Call::AppendSession("/c".into(), b"x".to_vec())], vec![Call::AppendSession("/c".into(), b"y".to_vec())]], backend: "mem" },
         ];
-        let cap = if o.thorough() { 20000 } else { 3000 };
+        let cap = if o.thorough() { 6000 } else { 3000 };
         for (pi, prog) in programs.iter().chain(known_units.iter()).enumerate() {
             let unit_program = pi >= programs.len();
             let seq = sequential_outcomes(prog, &scratch, &mut n);
@@ -536,7 +536,7 @@ pub fn run(o: &Opts) -> Report {
             vec!["/c/x", "/c/y"],
             vec!["/c/x/p", "/c/y/q"],
         ];
-        let cap = if o.thorough() { 30000 } else { 600 };
+        let cap = if o.thorough() { 10000 } else { 600 };
         for backend in backends {
             for ps in &path_sets {
                 if ps.len() == 3 && backend != "mem" && !o.thorough() {
